@@ -63,25 +63,27 @@ class ParseUserData:
     def parseCustom(self) -> str:
         name = (self.creatorID.lower() + "%04X" % self.compID).lower()
         userDataParserMod = "udparsers." + name + "." + name
+        # Only a failing import marks the module as missing.  An ImportError
+        # raised by the parser itself while handling one section is that
+        # section's failure and must not hide the module from later sections.
         try:
             if userDataParserMod in userDataParsers:
                 cls = userDataParsers[userDataParserMod]
             else:
                 cls = importlib.import_module(userDataParserMod)
                 userDataParsers[userDataParserMod] = cls
+        except ImportError:
+            userDataParsers[userDataParserMod] = None
+            cls = None
+            # No print for informational purposes, this is encountered often, e.g. PHYP
+        try:
             if self.data:
                 mv = memoryview(self.data)
                 if cls is None:
-                    # The module, which was previously checked, is not found.
+                    # The module is not found.
                     return json.dumps(hexdump(mv))
                 else:
                     return cls.parseUDToJson(self.subType, self.version, mv)
-        except ImportError:
-            userDataParsers[userDataParserMod] = None
-            # No print for informational purposes, this is encountered often, e.g. PHYP
-            if self.data:
-                mv = memoryview(self.data)
-                return json.dumps(hexdump(mv))
         except Exception as e:
             d = dict()
             # in case we do NOT have data, dump the Error at a minimum
